@@ -1,9 +1,11 @@
 """C10 - Clean family check (see cleanworlds.py for the world builder and the oracles)."""
+import re, random
 import core, findings, cleanworlds as cw
+from core import World, hx
 from gen import Gen
 from suites import run_suite
 
-LEAN_MODULES = ['GoSnaps.Props.C10', 'GoSnaps.Lemmas.NaturalOrder', 'GoSnaps.Props.C10Order', 'GoSnaps.Props.Tie.TestID', 'GoSnaps.Props.Tie.CleanIO', 'GoSnaps.Props.Tie.CleanTopIO1', 'GoSnaps.Props.Tie.CleanTopIO2', 'GoSnaps.Props.Tie.CleanTopIO3', 'GoSnaps.Props.Tie.CleanTopIO', 'GoSnaps.Props.Tie.EndToEndClean', 'GoSnaps.Props.Tie.EndToEndClean2']
+LEAN_MODULES = ['GoSnaps.Props.C10', 'GoSnaps.Lemmas.NaturalOrder', 'GoSnaps.Props.C10Order', 'GoSnaps.Props.Tie.TestID', 'GoSnaps.Props.Tie.CleanIO', 'GoSnaps.Props.Tie.CleanTopIO1', 'GoSnaps.Props.Tie.CleanTopIO2', 'GoSnaps.Props.Tie.CleanTopIO3', 'GoSnaps.Props.Tie.CleanTopIO', 'GoSnaps.Props.Tie.EndToEndClean', 'GoSnaps.Props.Tie.EndToEndClean2', 'GoSnaps.Props.Tie.EndToEndOrder']
 ORACLES = {'C07': [('matched-entries-kept', cw.o_matched_kept)],
            'C09': [('stale-reported-and-removed-only-in-clean-mode', cw.o_stale_reported)],
            'C10': [('rewrite-preserves-sorted-idempotent', cw.o_rewrite_preserves)]}['C10']
@@ -15,7 +17,114 @@ def known(w, p):
     return None
 
 
+
+# ---------------------------------------------------------------- natural.model
+# The Lean model of maruel/natural.Less (lean/GoSnaps/Natural.lean) against the library itself, one pair per
+# `natless` line (both directions).  Lemmas/NaturalOrder.lean proves the MODEL a strict total order on ids whose
+# digit runs are canonical numerals; this comparison is what makes that a statement about what Clean sorts
+# with, and the oracles replay the theorem's claims (irreflexive, total, asymmetric, transitive on canonical
+# ids) on the library.
+NAT_WORDS = [b'Test', b'TestA', b'a', b'b', b'x', b'/', b' - ', b'#', b'_', b'case', b'-', b' ', b'\xc3\xa9', b'A', b'Z', b'~', b'!', b':', b'[', b']']
+NAT_CANON = [b'0', b'1', b'2', b'9', b'10', b'12', b'19', b'20', b'100', b'101', b'999', b'4294967296', b'9223372036854775807', b'9223372036854775808',
+             b'18446744073709551615', b'9999999999999999999', b'1000000000000000000']
+NAT_ODD = [b'00', b'01', b'001', b'007', b'010', b'0000000000000000001', b'18446744073709551616', b'18446744073709551617', b'20000000000000000000',
+           b'99999999999999999999', b'00000000000000000001', b'184467440737095516150', b'018446744073709551615']
+
+
+def nat_canon(s):
+    return all(len(run) <= 19 and (len(run) == 1 or not run.startswith(b'0')) for run in re.findall(rb'[0-9]+', s))
+
+
+def nat_id(r, odd):
+    parts = []
+    for _ in range(r.randint(1, 5)):
+        k = r.random()
+        if k < 0.5:
+            parts.append(r.choice(NAT_WORDS))
+        elif k < 0.9 or not odd:
+            parts.append(r.choice(NAT_CANON))
+        else:
+            parts.append(r.choice(NAT_ODD))
+    s = b''.join(parts)
+    if r.random() < 0.3:
+        s += b' - ' + str(r.choice([1, 2, 9, 10, 11, 99, 100])).encode()
+    return s
+
+
+def nat_variant(r, s):
+    """an id close to s: another number in one of its runs, a longer / shorter run, a suffix, a changed byte"""
+    runs = list(re.finditer(rb'[0-9]+', s))
+    k = r.random()
+    if runs and k < 0.5:
+        m = r.choice(runs)
+        return s[:m.start()] + r.choice(NAT_CANON + [str(int(m.group()) + 1).encode()]) + s[m.end():]
+    if k < 0.7:
+        return s + r.choice(NAT_WORDS + NAT_CANON)
+    if k < 0.85 and s:
+        return s[:-1]
+    i = r.randrange(len(s) + 1)
+    return s[:i] + r.choice(NAT_WORDS + NAT_CANON) + s[i:]
+
+
+def _nl(line):
+    m = re.match(r'natless less=([01]) rev=([01])', line)
+    return (m.group(1) == '1', m.group(2) == '1') if m else None
+
+
+def natural_world(r, i, odd):
+    w = World('nat-%d' % i)
+    ids = [nat_id(r, odd) for _ in range(3)]
+    ids += [nat_variant(r, r.choice(ids)) for _ in range(3)]
+    pairs = [(a, b) for a in ids for b in ids]
+    idx = {}
+    for a, b in pairs:
+        if (a, b) not in idx:
+            idx[(a, b)] = w.add('natless %s %s' % (hx(a) if a else '-', hx(b) if b else '-'))
+    w.meta = dict(canon=sum(1 for x in ids if nat_canon(x)), n=len(ids))
+
+    def oracle(line, raw, ww):
+        res = {}
+        for (a, b), j in idx.items():
+            v = _nl(ww.impl[j])
+            if v is None:
+                return 'no answer for %r %r: %r' % (a, b, ww.impl[j][:80])
+            res[(a, b)] = v
+        for (a, b), (lt, rv) in res.items():
+            if res[(b, a)] != (rv, lt):
+                return 'natural.Less(%r, %r) answered differently in the two lines' % (a, b)
+            if a == b and (lt or rv):
+                return 'natural.Less(%r, %r) is true' % (a, a)
+        can = [x for x in set(ids) if nat_canon(x)]
+        for a in can:
+            for b in can:
+                lt, rv = res[(a, b)]
+                if a != b and lt == rv:
+                    return 'canonical ids %r, %r: natural.Less is %s both ways (NatOrd.natLt_total / natLt_asymm)' % (a, b, lt)
+                for c in can:
+                    if res[(a, b)][0] and res[(b, c)][0] and not res[(a, c)][0]:
+                        return 'canonical ids: %r < %r < %r but not %r < %r (NatOrd.natLt_trans)' % (a, b, c, a, c)
+        return None
+    w.expect[max(idx.values())] = ('natural-less-strict-total-order-on-canonical-ids', oracle)
+    return w
+
+
+def run_natural_model(ctx):
+    r = random.Random(ctx.seed * 1000003 + 1010)
+    n = 120 if ctx.tier == 'quick' else 4000
+    worlds = [natural_world(r, i, odd=(i % 3 == 0)) for i in range(n)]
+    # the witnesses of the two sharpness remarks (leading zero: not total; twenty digits: not transitive) stay as they are
+    w = World('nat-sharp')
+    for a, b in [(b'Test01 - 1', b'Test1 - 1'), (b'x20000000000000000000', b'x3'), (b'x3', b'x10'), (b'x10', b'x20000000000000000000')]:
+        w.add('natless %s %s' % (hx(a), hx(b)))
+    worlds.append(w)
+    run_suite(ctx, 'natural.model', worlds, known=None, chunk=400)
+    st = ctx.stats.setdefault('natural_model', {})
+    st['ids_canonical'] = sum(x.meta.get('canon', 0) for x in worlds if getattr(x, 'meta', None))
+    st['ids'] = sum(x.meta.get('n', 0) for x in worlds if getattr(x, 'meta', None))
+
+
 def run(ctx):
+    run_natural_model(ctx)
     g = Gen(ctx.seed * 1000003 + int('C10'[1:]))
     n = 150 if ctx.tier == 'quick' else 4000
     worlds = []
